@@ -182,13 +182,14 @@ theorem stripDelims_of_not_prefix (fuel : Nat) (e : Bytes) (h : delim.isPrefixOf
 theorem entryFields_eq (e0 : Bytes) (a b c d' : Int) (hstrip : stripDelims e0.length e0 = e0)
     (h1 : pyFind delim e0 0 = a) (h2 : pyFind delim e0 (a + (delim.length : Int)) = b)
     (h3 : pyFind delim e0 (b + (delim.length : Int)) = c)
-    (h4 : pyFind delim e0 (c + (delim.length : Int)) = d') (hd0 : ¬ d' < 0) :
+    (h4 : pyFind delim e0 (c + (delim.length : Int)) = d')
+    (ha0 : ¬ a < 0) (hb0 : ¬ b < 0) (hc0 : ¬ c < 0) (hd0 : ¬ d' < 0) :
     entryFields e0 =
       { path := pySlice e0 0 a, sizeRaw := pySlice e0 (a + (delim.length : Int)) b,
         pathEcc := pySlice e0 (b + (delim.length : Int)) c,
         sizeEcc := pySlice e0 (c + (delim.length : Int)) d',
         trackOff := d' + (delim.length : Int), stripped := 0 } := by
-  simp only [entryFields, hstrip, h1, h2, h3, h4, Nat.sub_self, hd0, if_false]
+  simp only [entryFields, hstrip, h1, h2, h3, h4, Nat.sub_self, ha0, hb0, hc0, hd0, or_self, if_false]
 
 theorem entryFields_gen (path sizeTxt pathEcc sizeEcc track : Bytes) (hp : path ≠ [])
     (c1 : ∀ i, i < path.length → ¬ delim.isPrefixOf ((path ++ delim).drop i) = true)
@@ -228,7 +229,7 @@ theorem entryFields_gen (path sizeTxt pathEcc sizeEcc track : Bytes) (hp : path 
     rw [List.drop_zero] at this
     rw [e1, List.nil_append, hl]
     simpa only [Bool.not_eq_true] using this
-  rw [entryFields_eq e _ _ _ _ hstrip f1 f2 f3 f4 (by omega)]
+  rw [entryFields_eq e _ _ _ _ hstrip f1 f2 f3 f4 (by omega) (by omega) (by omega) (by omega)]
   rw [pySlice_field e [] path _ 0 _ e1 rfl rfl]
   rw [pySlice_field e (path ++ delim) sizeTxt _ _ _ e2
     (by simp only [List.length_append, List.length_nil]; omega) rfl]
